@@ -67,7 +67,9 @@ uintptr_t metatype::generic::addref()
 void metatype::generic::unref()
 {
 	if (!_ref.lower()) {
-		delete this;
+		/* storage comes from malloc() in create() */
+		this->~generic();
+		free(this);
 	}
 }
 
